@@ -26,6 +26,17 @@ type RCase struct {
 	Churn  string  `json:"churn"` // none | fresh | promote | fresh+promote | misses | cycle
 	Rounds int     `json:"rounds"`
 	Procs  int     `json:"procs"`
+	// FreshKeys: the contested keys of round r are two keys never used before (instead of 0/1 for ever); in every other
+	// round the first of them is stored by the coordinator just before the round, so that it is present but lives in
+	// the dirty map only when the concurrent calls arrive
+	FreshKeys bool `json:"fresh_keys,omitempty"`
+}
+
+func (c RCase) key(r, k int) int {
+	if c.FreshKeys {
+		return 10_000_000 + r*2 + k
+	}
+	return k
 }
 
 func RunRounds(c RCase) pbt.Outcome {
@@ -72,6 +83,7 @@ func RunRounds(c RCase) pbt.Outcome {
 				rs := recs[w][:0]
 				for oi, op := range c.Progs[w] {
 					val := int(r)*64 + w*8 + oi + 1
+					op.Key = c.key(int(r), op.Key)
 					rec := Rec{Th: w, Op: op, Val: val, Inv: int(clock.Add(1))}
 					rec.Out, rec.OK, rec.Pairs, rec.Calls = Exec(&m, op, val)
 					rec.Resp = int(clock.Add(1))
@@ -93,10 +105,10 @@ func RunRounds(c RCase) pbt.Outcome {
 		*hist = append(*hist, rec)
 		return rec
 	}
-	keys := func() []int {
-		ks := []int{0, 1}
+	keys := func(k0, k1 int) []int {
+		ks := []int{k0, k1}
 		for k := range state {
-			if k > 1 {
+			if k != k0 && k != k1 {
 				ks = append(ks, k)
 			}
 		}
@@ -119,6 +131,10 @@ func RunRounds(c RCase) pbt.Outcome {
 		}
 		roundsDone = r
 		hist = hist[:0]
+		k0, k1 := c.key(r, 0), c.key(r, 1)
+		if c.FreshKeys && r%2 == 0 {
+			seq(&hist, MOp{K: "store", Key: k0}, r*64+60)
+		}
 		phase.Store(int64(r))
 		for spins := 0; done.Load() < int64(r*W); spins++ {
 			if spins > 200 {
@@ -143,8 +159,8 @@ func RunRounds(c RCase) pbt.Outcome {
 			overlapped++
 		}
 		// read back, churn, read back again
-		seq(&hist, MOp{K: "load", Key: 0}, 0)
-		seq(&hist, MOp{K: "load", Key: 1}, 0)
+		seq(&hist, MOp{K: "load", Key: k0}, 0)
+		seq(&hist, MOp{K: "load", Key: k1}, 0)
 		churn := c.Churn
 		if churn == "cycle" {
 			churn = []string{"fresh", "promote", "none", "fresh+promote", "misses"}[r%5]
@@ -168,12 +184,11 @@ func RunRounds(c RCase) pbt.Outcome {
 				seq(&hist, MOp{K: "load", Key: 900000 + i}, 0)
 			}
 		}
-		seq(&hist, MOp{K: "load", Key: 0}, 0)
-		l1 := seq(&hist, MOp{K: "load", Key: 1}, 0)
-		_ = l1
-		if v := CheckHistory(state, keys(), hist); v != "" {
+		seq(&hist, MOp{K: "load", Key: k0}, 0)
+		seq(&hist, MOp{K: "load", Key: k1}, 0)
+		if v := CheckHistory(state, keys(k0, k1), hist); v != "" {
 			finish()
-			return pbt.Outcome{Violation: fmt.Sprintf("round %d of %d on one long-lived Map (churn between rounds: %s): %s\nthe round's history (state before it: key0=%d key1=%d, %d stable keys):\n%s", r, c.Rounds, c.Churn, v, state[0], state[1], c.Stable, histString(hist))}
+			return pbt.Outcome{Violation: fmt.Sprintf("round %d of %d on one long-lived Map (churn between rounds: %s): %s\nthe round's history (state before it: key %d=%d key %d=%d, %d stable keys):\n%s", r, c.Rounds, c.Churn, v, k0, state[k0], k1, state[k1], c.Stable, histString(hist))}
 		}
 		// the model after the round: sequential calls are applied, the contested keys are what the last loads returned
 		for _, h := range hist {
@@ -186,7 +201,7 @@ func RunRounds(c RCase) pbt.Outcome {
 			case "del":
 				delete(state, h.Op.Key)
 			case "load":
-				if h.Op.Key <= 1 {
+				if h.Op.Key == k0 || h.Op.Key == k1 {
 					if h.OK {
 						state[h.Op.Key] = h.Out
 					} else {
@@ -195,12 +210,22 @@ func RunRounds(c RCase) pbt.Outcome {
 				}
 			}
 		}
+		if c.FreshKeys {
+			// this round's keys are never used again
+			m.Delete(k0)
+			m.Delete(k1)
+			delete(state, k0)
+			delete(state, k1)
+		}
 		if r%256 == 0 {
 			layoutLabels(&m, layouts)
 		}
 	}
 	finish()
 	out := pbt.Outcome{Evals: roundsDone, NonTrivial: overlapped > 0, Labels: []string{"churn=" + c.Churn, fmt.Sprintf("goroutines=%d", W)}}
+	if c.FreshKeys {
+		out.Labels = append(out.Labels, "fresh-contested-keys-every-round(dirty-only)")
+	}
 	if cut {
 		out.Labels = append(out.Labels, "case-cut-short-by-its-wall-clock-budget")
 	}
@@ -215,7 +240,7 @@ func RunRounds(c RCase) pbt.Outcome {
 
 var specRounds = pbt.Register(&pbt.Spec[RCase]{
 	Property: "C04", Name: "C04.rounds",
-	Rule: "E4 free-running, no race detector (speed): 1000..10000 tiny rounds on ONE long-lived Map: 2..4 persistent goroutines each run 1..2 calls {Store, LoadOrStore, LoadAndDelete, Delete, Load, Range} on the contested keys 0/1 at the same moment (spin barrier), " +
+	Rule: "E4 free-running, no race detector (speed): 1000..10000 tiny rounds on ONE long-lived Map: 2..4 persistent goroutines each run 1..2 calls {Store, LoadOrStore, LoadAndDelete, Delete, Load, Range} on the contested keys 0/1 (one case in three: on two keys never used before, one of them stored just before the round so that it lives in the dirty map only) at the same moment (spin barrier), " +
 		"0..40 stable keys are never touched, between rounds the coordinator reads the contested keys, churns (fresh key stored and an older one deleted / Range = promotion / misses = promotion / all in turn) and reads them again; " +
 		"oracle: each round's history (concurrent calls + the sequential ones around them) against the linearizability + Range rule with the state before the round as the start (so a store that is visible first and gone after the next promotion, " +
 		"a Range that skips a stable key, a resurrected value all show); non-trivial = sampled rounds had overlapping calls on one key from different goroutines",
@@ -223,6 +248,7 @@ var specRounds = pbt.Register(&pbt.Spec[RCase]{
 		c := RCase{Stable: rapid.SampledFrom([]int{0, 1, 1, 2, 5, 40}).Draw(t, "stable"),
 			Churn:  rapid.SampledFrom([]string{"none", "fresh", "promote", "fresh+promote", "fresh+promote", "misses", "cycle", "cycle"}).Draw(t, "churn"),
 			Rounds: rapid.SampledFrom([]int{1000, 3000, 10000}).Draw(t, "rounds"), Procs: rapid.SampledFrom([]int{4, 8, 16}).Draw(t, "procs")}
+		c.FreshKeys = rapid.IntRange(0, 2).Draw(t, "freshkeys") == 1
 		w := rapid.IntRange(2, 4).Draw(t, "goroutines")
 		oneKey := rapid.Bool().Draw(t, "onekey")
 		for i := 0; i < w; i++ {
